@@ -942,6 +942,21 @@ func normCondTerm(term string) (string, bool) {
 			neg = !neg
 		}
 	}
+	// emptiness: `len(x) == 0` and `x == ""` are written as the negation of `0 < len(x)`
+	if strings.HasPrefix(term, "(builtin:len(") && strings.HasSuffix(term, ") == 0)") {
+		inner := term[len("(builtin:len(") : len(term)-len(") == 0)")]
+		if balanced(inner) {
+			term = "(0 < builtin:len(" + inner + "))"
+			neg = !neg
+		}
+	}
+	if strings.HasPrefix(term, "(") && strings.HasSuffix(term, ` == "")`) {
+		inner := term[1 : len(term)-len(` == "")`)]
+		if balanced(inner) && topLevelOp(term, " == ") == len(term)-len(` == "")`) {
+			term = "(0 < builtin:len(" + inner + "))"
+			neg = !neg
+		}
+	}
 	// "a < b-1" is written "a+1 < b" (integers; no overflow in index arithmetic)
 	if strings.HasPrefix(term, "(") && strings.HasSuffix(term, ")") {
 		if i := topLevelOp(term, " < "); i > 0 {
